@@ -1,18 +1,13 @@
 SPECIFICATION Spec
 CONSTANTS
   Peers <- P3
-  GarbagePeers <- G1
   X <- X3
   Cls <- Cls3
   Req = "r"
   Named <- T2
-  T <- T2
   BadCopy <- None
-  Holds <- Holds1
-  Mute <- None
   MaxH = 1
-  MaxSend = 4
-  MaxPush = 1
+  Universes <- U1
   BugDeliverTwice = TRUE
   BugRelaySenderOnly = FALSE
   BugTruncate = FALSE
@@ -20,5 +15,4 @@ CONSTANTS
   BugStartBeforeSync = FALSE
   SplitLookup = FALSE
 INVARIANTS TypeOK Safe AtRest
-CONSTRAINT Constr
 CHECK_DEADLOCK FALSE
